@@ -37,7 +37,11 @@ def sections(obj):
         if m:
             flags = [f.strip() for f in m.group(4).split(",")]
             align = int(m.group(3))
-            out[m.group(1)] = {"w": "ALLOC" in flags and "READONLY" not in flags and "CODE" not in flags,
+            # .data.rel.ro / .data.rel.ro.local hold const-qualified objects that need relocations (tables of
+            # pointers): writable only for the dynamic loader, read-only afterwards (RELRO) - "relro", not "w"
+            relro = m.group(1) == ".data.rel.ro" or m.group(1).startswith(".data.rel.ro.")
+            out[m.group(1)] = {"w": "ALLOC" in flags and "READONLY" not in flags and "CODE" not in flags and not relro,
+                               "relro": relro,
                                "bss": "ALLOC" in flags and "CONTENTS" not in flags and "LOAD" not in flags,
                                "size": int(m.group(2), 16), "alloc": "ALLOC" in flags, "align": align}
     return out
@@ -62,6 +66,7 @@ def scan_object(obj):
     secs = sections(obj)
     syms = symbols(obj)
     wsecs = {s for s, f in secs.items() if f["w"]}
+    store_secs = wsecs | {s for s, f in secs.items() if f.get("relro")}     # a store into const data is still reported
     by_sec = {}
     for s in syms:
         if s["sec"] in wsecs and s["name"] != s["sec"]:
@@ -122,7 +127,7 @@ def scan_object(obj):
                 continue
             mem_first = has_mem[0]
             mnem = i["mnem"].split()[-1]
-            if defined_here and sec not in wsecs:
+            if defined_here and sec not in store_secs:
                 continue
             if mnem == "lea":
                 if defined_here:
@@ -191,7 +196,8 @@ def scan_object(obj):
             for sec, f in secs.items() if f["w"] and f["size"] > 0 and not by_sec.get(sec)]
     defs = sorted({x["name"] for x in syms if x["sec"].startswith(".text") and x["flags"][0] == "g"})
     return {"obj": name, "refs": sorted(refs), "defs": defs, "stores": stores, "und_stores": undefined_targets, "wsyms": wsyms + anon, "addr_taken": addr_taken,
-            "wsecs": {s: secs[s]["size"] for s in wsecs if secs[s]["size"]}}
+            "wsecs": {s: secs[s]["size"] for s in wsecs if secs[s]["size"]},
+            "relro_syms": [x["name"] for x in syms if secs.get(x["sec"], {}).get("relro") and x["name"] != x["sec"]]}
 
 
 def split_ops(ops):
@@ -363,7 +369,8 @@ def generate(objdir, repo, fips=False):
             "data_syms_by_obj": {r["obj"]: len([s for s in r["wsyms"] if not s["bss"]]) for r in res if r["wsyms"]},
             "wsyms": wsyms, "c_sources": len(srcs), "c_statics_nonconst": nc,
             "addr_taken": sum(r["addr_taken"] for r in res), "dispatch_ptrs": disp,
-            "graph": {r["obj"]: {"refs": r["refs"], "defs": r["defs"]} for r in res}}
+            "graph": {r["obj"]: {"refs": r["refs"], "defs": r["defs"]} for r in res},
+            "relro_const_symbols": sorted("%s:%s" % (r["obj"], n) for r in res for n in r["relro_syms"])}
     return "\n".join(lines) + "\n", info
 
 
